@@ -4,6 +4,7 @@ import (
 	"bytes"
 	"fmt"
 	"math/big"
+	"os"
 	"sort"
 	"strings"
 	"time"
@@ -294,13 +295,16 @@ func (r *arRun) arReceiveAll() bool {
 			}
 			after := arDumpStorage(n, ca)
 			r.checkReceive(sendBlock, res, before, after)
+			if r.failed {
+				return false // the history ends at the first violation
+			}
 			one = true
 		}
 		if !one {
 			break
 		}
-		if round > 2000 {
-			r.fail("auto-receive loop did not terminate after 2000 rounds")
+		if round > 500 {
+			r.fail("C09: the producer's auto-receive loop did not terminate after 500 rounds")
 			return false
 		}
 	}
@@ -659,6 +663,21 @@ func init() {
 }
 
 func autoreceiveHistory(c *Ctx, id int, scenario string) {
+	// watchdog: the real code is driven on this goroutine; if it does not come back (a loop that no longer terminates) the
+	// run ends with a failure instead of waiting for the stream's time limit
+	done := make(chan struct{})
+	defer close(done)
+	go func() {
+		limit := 10 * time.Minute
+		select {
+		case <-done:
+		case <-time.After(limit):
+			msg := fmt.Sprintf("autoreceive run=%d scenario=%q: C09: the history did not finish within %v: receive production does not terminate", id, scenario, limit)
+			fmt.Fprintln(os.Stderr, msg)
+			fmt.Println(msg)
+			os.Exit(3)
+		}
+	}()
 	origGate := verifier.ReceiverMismatchEnforcementHeight
 	origAdmin := constants.InitialBridgeAdministrator
 	origAdminDelay, origSoftDelay, origUnhalt, origGuardians := constants.MinAdministratorDelay, constants.MinSoftDelay, constants.MinUnhaltDurationInMomentums, constants.MinGuardians
